@@ -255,6 +255,7 @@ func (svc *service) writeMessage(msg message.Message) (int, error) {
 	if svc.out == nil {
 		return 0, ErrBufferNotReady
 	}
+	verifSvcYield(svc, "wm.checked")
 
 	// This is to serialize writes to the underlying buffer. Multiple goroutines could
 	// potentially get here because of calling Publish() or Subscribe() or other
@@ -286,6 +287,7 @@ func (svc *service) writeMessage(msg message.Message) (int, error) {
 			return 0, err
 		}
 
+		verifEvent("enq", svc, int64(msg.Type()), int64(msg.PacketID()), int64(n), "")
 		m, err = svc.out.Write(svc.outtmp[0:n])
 		if err != nil {
 			return m, err
@@ -296,6 +298,7 @@ func (svc *service) writeMessage(msg message.Message) (int, error) {
 			return 0, err
 		}
 
+		verifEvent("enq", svc, int64(msg.Type()), int64(msg.PacketID()), int64(n), "")
 		m, err = svc.out.WriteCommit(n)
 		if err != nil {
 			return 0, err
